@@ -518,7 +518,7 @@ def mutate_tree(rng, t, kind=None):
     paths = list(tree_paths(t))
     kind = kind or rng.choice(
         ["inject", "inject", "inject_known", "unknown_attr", "xsi_attr", "delete", "duplicate", "retag", "reorder", "corrupt_text",
-         "corrupt_attr", "bad_xsi_type", "bad_xsi_nil", "drop_attr", "add_text", "add_tail", "ws"]
+         "corrupt_attr", "bad_xsi_type", "bad_xsi_nil", "drop_attr", "add_text", "add_tail", "ws", "typed_prim", "typed_prim"]
     )
     path, node = rng.choice(paths)
 
@@ -566,6 +566,21 @@ def mutate_tree(rng, t, kind=None):
         node["t"] = (node["t"] or "") + rng.choice(["extra", " ", "\n  "])
     elif kind == "add_tail" and path:
         node["tl"] = (node["tl"] or "") + rng.choice(["tail", " ", "\n"])
+    elif kind == "typed_prim":
+        # an xsi:type'd primitive whose prefixes are declared (or re-bound) on the element itself
+        XS = "http://www.w3.org/2001/XMLSchema"
+        tname, text = rng.choice([("QName", "p:foo"), ("QName", "foo"), ("QName", "xs:int"), ("int", " 12 "), ("boolean", "1"),
+                                  ("string", "p:foo"), ("short", "7"), ("QName", "q:bar")])
+        leaf = rng.choice([n for _, n in paths if not n["c"]] or [node])
+        set_attr(leaf, "{http://www.w3.org/2001/XMLSchema-instance}type", "xs:" + tname)
+        leaf["t"] = text
+        ns = [kv for kv in leaf["ns"] if kv[0] not in ("xs", "p")]
+        leaf["ns"] = ns + [["xs", XS], ["p", rng.choice(["urn:inner", "urn:a"])]]
+        # the same prefix bound to something else further out
+        if path and rng.random() < 0.6:
+            outer = tree_at(t, path[:-1]) if leaf is node else t
+            if outer is not leaf and not any(kv[0] == "p" for kv in outer["ns"]):
+                outer["ns"] = outer["ns"] + [["p", "urn:outer"]]
     elif kind == "ws":
         for _, n in paths:
             if n["c"]:
